@@ -45,8 +45,8 @@ def gen_case(rng, name):
     rng.shuffle(perm_c)
     return {"matrix": mtx, "objectives": objs, "weights": gen.weights(rng, m),
             "weights2": gen.weights(rng, m), "perm_r": perm_r, "perm_c": perm_c,
-            "alternatives": gen.labels(rng, n, gen.LABEL_POOL_A, "A"),
-            "criteria": gen.labels(rng, m, gen.LABEL_POOL_C, "C"), "tf": cfg, "mode": mode}
+            "alternatives": gen.labels(rng, n, gen.LABEL_POOL_A, "A", kinds=False),
+            "criteria": gen.labels(rng, m, gen.LABEL_POOL_C, "C", kinds=False), "tf": cfg, "mode": mode}
 
 
 def run_impl(case):
